@@ -955,6 +955,8 @@ class Interp:
             return v1
         if isinstance(v1, TupleV) and isinstance(v2, TupleV) and len(v1.items) == len(v2.items):
             return TupleV([self.join_ite(c, a, b) for a, b in zip(v1.items, v2.items)])
+        if (isinstance(v1, AltV) and all(isinstance(x, (Const, NoneV)) for _g, x in v1.alts) and isinstance(v2, (Const, NoneV, AltV))) or (isinstance(v2, AltV) and all(isinstance(x, (Const, NoneV)) for _g, x in v2.alts) and isinstance(v1, (Const, NoneV))):
+            return self.mk_alt([(c, v1), (f_not(c), v2)])
         if isinstance(v1, AltV) or isinstance(v2, AltV) or any(isinstance(x, (Fn, Obj, ClassRef, Opaque, BoundAPI, SuperRef, MapV, EnumV, DictV, DictCompV, PartialV)) for x in (v1, v2)):
             if not (isinstance(v1, Coll) or isinstance(v2, Coll)):
                 return self.mk_alt([(c, v1), (f_not(c), v2)])
@@ -978,6 +980,8 @@ class Interp:
             return v1
         if isinstance(v1, NoneV) and isinstance(v2, NoneV):
             return v1
+        if isinstance(v1, (Const, NoneV)) and isinstance(v2, (Const, NoneV)):
+            return self.mk_alt([(c, v1), (f_not(c), v2)])  # mode constants chosen by the options
         for a, b in ((v1, v2), (v2, v1)):
             if isinstance(a, (Unknown, Opaque)) and a.taint & {"FLAG", "EXT"} and isinstance(b, (Const, NoneV, Unknown)) and not taint_of(b) - a.taint:
                 if isinstance(a, Unknown):
@@ -1179,6 +1183,9 @@ class Interp:
         everything it builds is marked as not understood."""
         test = s.test
         work = None
+        it_loop = self._iterator_loop(fr, s)
+        if it_loop is not None:
+            return self.exec_for(fr, it_loop)
         if isinstance(test, (ast.Name, ast.Attribute)):
             w = self.ev(fr, test)
             if isinstance(w, Coll) or (isinstance(w, Unknown) and (hasattr(w, "_coll") or w.taint & {"PARSED", "CONVERTED"})):
@@ -1214,6 +1221,24 @@ class Interp:
             fr.returns[i] = (rg, rv)
             exits.append(rg)
         return f_not(disj(exits)) if exits else TRUE
+
+    def _iterator_loop(self, fr: Frame, s: ast.While) -> "ast.For | None":
+        """`while True: try: x = next(it) except StopIteration: break; <rest>`  is  `for x in it: <rest>`."""
+        if not (isinstance(s.test, ast.Constant) and s.test.value is True and s.body and isinstance(s.body[0], ast.Try) and not s.orelse):
+            return None
+        t = s.body[0]
+        if not (len(t.body) == 1 and isinstance(t.body[0], ast.Assign) and len(t.body[0].targets) == 1 and not t.orelse and not t.finalbody and len(t.handlers) == 1):
+            return None
+        call = t.body[0].value
+        h = t.handlers[0]
+        if not (isinstance(call, ast.Call) and isinstance(call.func, ast.Name) and call.func.id == "next" and len(call.args) == 1 and not call.keywords):
+            return None
+        if not (h.type is not None and norm(h.type) == "StopIteration" and len(h.body) == 1 and isinstance(h.body[0], ast.Break)):
+            return None
+        loop = ast.For(target=t.body[0].targets[0], iter=call.args[0], body=s.body[1:] or [ast.Pass()], orelse=[], type_comment=None)
+        ast.copy_location(loop, s)
+        ast.fix_missing_locations(loop)
+        return loop
 
     def _mark_partial(self, lp: Loop) -> None:
         self.note(f"loop `{norm(lp.node, 50) if lp.node is not None else lp.sym}` is left by break: elements after the break are not processed")
@@ -1629,6 +1654,10 @@ class Interp:
         return conj(parts)
 
     def compare1(self, fr: Frame, le: ast.expr, lv: V, op: ast.cmpop, re_: ast.expr, rv: V) -> Formula:
+        if isinstance(lv, AltV) and not isinstance(op, (ast.In, ast.NotIn)):
+            return disj(conj([g, self.compare1(fr, le, x, op, re_, rv)]) for g, x in self.live(lv))
+        if isinstance(rv, AltV) and not isinstance(op, (ast.In, ast.NotIn)):
+            return disj(conj([g, self.compare1(fr, le, lv, op, re_, x)]) for g, x in self.live(rv))
         if isinstance(op, (ast.Is, ast.IsNot)):
             if isinstance(rv, NoneV) or isinstance(lv, NoneV):
                 f = self.isnone(lv if isinstance(rv, NoneV) else rv)
